@@ -334,6 +334,16 @@ def ob_map_text(run, tier, seed):
             fail('uniq-enum', ','.join(c.__name__ for c in claims), w, 'word claimed by %s' % [c.__name__ for c in claims])
             continue
         spec = spec_mnemonic(w)
+        # the public dispatcher agrees with the per-class tests (which the uniqueness proof is about): it returns the one claiming class and
+        # refuses a word no class claims -- whatever was decoded before in this process
+        try:
+            disp = ppc.ppc_mn.class_from_op(w)
+        except ValueError:
+            disp = None
+        except Exception as ex:
+            disp = ex
+        if (disp is None) != (not claims) or (claims and disp is not claims[0]):
+            fail('dispatch', (claims[0].__name__ if claims else 'none'), w, 'class_from_op(0x%08x) gives %s, the class tests give %s' % (w, getattr(disp, '__name__', disp), [c.__name__ for c in claims]))
         if not claims:
             continue
         cls = claims[0]
